@@ -23,7 +23,7 @@ func init() {
 				"arguments. With R1-R4, for every device: delivered + held = recorded, by induction over the critical sections (each " +
 				"either adds one to held, moves held to in-flight, delivers in-flight, or adds in-flight back to held).",
 			NotCovered: "the induction over interleavings itself is a paper argument, not mechanised; the uploader's own behaviour.",
-			Rules: map[string]string{"C16-RC": "class rules (error chains, shadowed results, character classes, crossed arguments, pool constructors, array pools, loop completeness, loop-carried buffers, replacing setters, complete clones, Grow arithmetic, pooled-buffer escape, sorted searches, fresh decode targets, per-iteration objects, whole-message copies, codec guards) over the packages this property rests on", "C16-R14": "the error-class enums declared in backendpb and in metrics agree, and the metrics switches (panicking default) have a case for each value", "C16-R13": "request information attached to a context inside an accept/stream loop is allocated in that iteration; pool constructors build fresh objects", "C16-R12": "the periodic worker that uploads billing records, incl. the final upload on shutdown before the worker stops (shared rule, see C13-R11)", "C16-R11": "a request is served and billed once; the billed location is the one of the client's own address (tables shared with C09-R1 and C05-R5)", "C16-R1": "records only under mu", "C16-R2": "Refresh: upload what was reset, remerge iff failed",
+			Rules: map[string]string{"C16-R15": "geoip.File.Refresh clears its caches after installing the new databases, so billing records do not keep the previous database's country and ASN (shared with C05-R10)", "C16-R16": "every transport samples the request's start time after the message has been read", "C16-RC": "class rules (error chains, shadowed results, character classes, crossed arguments, pool constructors, array pools, loop completeness, loop-carried buffers, replacing setters, complete clones, Grow arithmetic, pooled-buffer escape, sorted searches, fresh decode targets, per-iteration objects, whole-message copies, codec guards) over the packages this property rests on", "C16-R14": "the error-class enums declared in backendpb and in metrics agree, and the metrics switches (panicking default) have a case for each value", "C16-R13": "request information attached to a context inside an accept/stream loop is allocated in that iteration; pool constructors build fresh objects", "C16-R12": "the periodic worker that uploads billing records, incl. the final upload on shutdown before the worker stops (shared rule, see C13-R11)", "C16-R11": "a request is served and billed once; the billed location is the one of the client's own address (tables shared with C09-R1 and C05-R5)", "C16-R1": "records only under mu", "C16-R2": "Refresh: upload what was reset, remerge iff failed",
 				"C16-R3": "remerge: insert or add counts", "C16-R4": "Record: new=1, existing+1, metadata from arguments",
 				"C16-R6": "resetRecords hands out the old map and installs a fresh one on every path; recordToProtobuf copies count, device, country, ASN, protocol and time unchanged",
 				"C16-R8": "wiring: the recorder installed for the request path is the one the refresh worker flushes; that worker flushes once more on shutdown and is registered with the signal handler",
@@ -33,6 +33,13 @@ func init() {
 
 func runC16(c *an.Ctx) {
 	classSweep(c, "C16")
+	// ---- R15: the GeoIP caches are emptied after the new databases are in place (shared with C05-R10); R16: the
+	// request's start time, which becomes the device's last-activity time, is sampled after the message has arrived
+	c.Floor("C16-R15", 2)
+	c.Borrow("C16-R15", runC05, func(o an.Obligation) bool { return o.Rule == "C05-R10" })
+	if n := c16StartTime(c, "C16-R16"); n < 5 {
+		c.Und("C16-R16", "request start times", token.NoPos, "only %d stores to RequestInfo.StartTime found (expected one per transport)", n)
+	}
 	c.Floor("C16-R12", 5)
 	refreshWorkerRules(c, "C16-R12")
 	dnssvcWiring(c, "C16-R10", func(dst, src string) bool {
@@ -488,4 +495,63 @@ func c16Wiring(c *an.Ctx) {
 	c.Check(added, "C16-R8", k+" registered for shutdown", fn.Pos(),
 		"the worker is handed to the signal handler, which shuts it down (and thereby flushes) on termination",
 		"the billing refresh worker is not registered with the signal handler: nothing flushes the held counts on termination")
+}
+
+// c16StartTime: the time reported for a device is the request's start time,
+// and that is sampled when the message has arrived, not when the server began
+// to wait for it.  Every value stored into dnsserver.RequestInfo.StartTime is
+// walked back to its time.Now calls; in the function that makes such a call,
+// if anything is read there (a call whose name says Read), some read dominates
+// the sampling.
+func c16StartTime(c *an.Ctx, rule string) (examined int) {
+	for _, fs := range c.Prog.FieldStores("dnsserver.RequestInfo", "StartTime") {
+		fn := fs.Store.Parent()
+		if c.Prog.IsTestFile(fn.Pos()) {
+			continue
+		}
+		var nows []*ssa.Call
+		w := &an.Walker{P: c.Prog, NoFieldJoin: true,
+			Visit: func(v ssa.Value) bool {
+				if call, ok := v.(*ssa.Call); ok && an.CalleeName(call) == "time.Now" {
+					nows = append(nows, call)
+					return true
+				}
+				return false
+			}}
+		w.Walk(fs.Val)
+		examined++
+		c.Analysed(an.FnKey(fn))
+		bad := ""
+		if len(nows) == 0 {
+			bad = "the start time does not come from time.Now"
+		}
+		for _, now := range nows {
+			nf := now.Parent()
+			var reads []ssa.CallInstruction
+			for _, call := range an.Calls(nf) {
+				n := an.Short(an.CalleeName(call))
+				if i := strings.LastIndexAny(n, ".)"); i >= 0 {
+					n = n[i+1:]
+				}
+				if strings.HasPrefix(strings.ToLower(n), "read") {
+					reads = append(reads, call)
+				}
+			}
+			if len(reads) == 0 {
+				continue
+			}
+			dominated := false
+			for _, r := range reads {
+				if an.Dominates(r, now) {
+					dominated = true
+				}
+			}
+			if !dominated {
+				bad = fmt.Sprintf("time.Now at %s is sampled before the message is read (%s): the time the server spent waiting for a datagram counts as part of the request", c.Pos(now.Pos()), an.Short(an.CalleeName(reads[0])))
+			}
+		}
+		c.Check(bad == "", rule, an.FnKey(fn)+" stamps the request when its message has arrived", fs.Store.Pos(),
+			fmt.Sprintf("%d clock samples feed the start time, each taken after the read in its function", len(nows)), bad)
+	}
+	return examined
 }
